@@ -9,7 +9,7 @@ from .refmodel import selftest
 from .refmodel.groups import KeGroupModel
 
 LEVEL = "exploration"
-RULE = ("per suite and identity configuration {none, client-only, server-only, both explicit} x context: setup A, records "
+RULE = ("per suite and identity configuration {none, client-only, server-only, both explicit, 300/257-byte identities, empty strings} x context: setup A, records "
         "registered under A; impostor setups B = deserialize(seed_A || sk_X || fake_X) for sk_X in {fresh, another real "
         "server's, A's own fake key, A's key with fake:=A's key (control)}; every record is served under every B with "
         "the server identity kept explicit (so only the key can differ) and with defaults; non-trivial = a login under "
@@ -62,8 +62,10 @@ def run_job(job):
                     viol.append({"sig": "C06 control: impostor setup bytes rejected", "what": "%s %s: %s" % (su, nm, r.err)})
             # same key, other fake key and a reload: must behave exactly like A (control for the mechanism)
             s.de("setup", seed_a + sk_a + F[sz.nh + sz.nsk:], out="A2")
+            long_u, long_s = b"U" * 300, b"S" * 257
             for idu, ids, ctx, lab in [(None, None, None, "none"), (b"client-id", None, None, "client-only"), (None, b"server-id", b"c", "server-only"),
-                                       (b"client-id", b"server-id", None, "both")]:
+                                       (b"client-id", b"server-id", None, "both"), (long_u, None, None, "long-client-only"), (None, long_s, None, "long-server-only"),
+                                       (long_u, long_s, b"x" * 300, "long-both"), (b"", b"", b"", "empty-strings")]:
                 pw, cred = b"pw-%d" % wi, b"user-%d" % rnd.randrange(1000)
                 reg = proto.register(s, rng, "A", pw, cred, id_u=idu, id_s=ids, wire=False, tag="g")
                 evals += 4
@@ -120,7 +122,7 @@ def floors(tier, stats, results):
     missing = [x for x in okv.SUITES20 if stats.get("suites", {}).get(x, 0) < 30]
     if missing:
         out.append("fewer than 30 impostor logins for suites %s" % missing)
-    for k in ("none", "client-only", "server-only", "both"):
+    for k in ("none", "client-only", "server-only", "both", "long-client-only", "long-server-only", "long-both", "empty-strings"):
         if stats.get("by_ids", {}).get(k, 0) < 100:
             out.append("identity configuration %s under-observed" % k)
     return out
